@@ -242,6 +242,22 @@ def _units():
 UNITS = _units()
 
 
+def replay(o):
+    """replay of refuted obligations that have a native recipe: the same usage pattern on the real code"""
+    from ..runner import native
+
+    cfg = (o.get("info") or {}).get("replay_payload") or {}
+    section = "value_update" if "value_update" in cfg else ("periodic_specs" if "periodic_spec" in cfg else None)
+    if section is None:
+        return {"reproduced": None, "note": "no native replay recipe for this obligation"}
+    res = native("boundaries.py", {"seed": 1, "sections": [section]}, timeout=1200)
+    if not res.get("ok"):
+        return {"reproduced": None, "error": res}
+    if res["failures"]:
+        return {"reproduced": True, "native": res["failures"][0]}
+    return {"reproduced": False, "note": f"the native {section} cases satisfied the conditions"}
+
+
 def bounded(tier, seed):
     """bounded stand-in (NOT counted as proved): every BC type and alias, all accepted specification formats,
     ranks 0-2, both backends (interpreted setter and compiled setter), expression BCs, copies of BCs"""
@@ -438,3 +454,146 @@ def copy_unit(clsname, with_upper):
 
 
 UNITS += [(f"{c}.copy[upper={'given' if w else 'kept'}]", copy_unit(c, w)) for c in ("DirichletBC", "NeumannBC", "MixedBC", "CurvatureBC", "_PeriodicBC") for w in (False, True)]
+
+
+# ------------------------------------------------------------------ specification of a periodic axis
+AXIS = "pde.grids.boundaries.axis"
+PERIODIC_SPECS = {
+    "periodic": ("'periodic'", "periodic"), "anti-periodic": ("'anti-periodic'", "anti-periodic"),
+    "dict_periodic": ("{'type': 'periodic'}", {"type": "periodic"}), "dict_anti-periodic": ("{'type': 'anti-periodic'}", {"type": "anti-periodic"}),
+    "pair_periodic": ("('periodic', 'periodic')", ("periodic", "periodic")), "pair_anti-periodic": ("('anti-periodic', 'anti-periodic')", ("anti-periodic", "anti-periodic")),
+    "list_dict_anti-periodic": ("[{'type': 'anti-periodic'}, {'type': 'anti-periodic'}]", [{"type": "anti-periodic"}, {"type": "anti-periodic"}]),
+    "auto_periodic_neumann": ("'auto_periodic_neumann'", "auto_periodic_neumann"), "auto_periodic_dirichlet": ("'auto_periodic_dirichlet'", "auto_periodic_dirichlet"),
+}
+
+
+def axis_spec_unit(key, grid_periodic):
+    """the real get_boundary_axis / BoundaryPeriodic / BoundaryAxisBase / _PeriodicBC constructors: every accepted
+    way of writing a periodic or anti-periodic condition yields the pair of _PeriodicBC objects with the
+    sign flag the ghost-cell contract above is stated for (ghost = +-opposite cell); periodicity has to
+    match the grid; other specifications are handed on unchanged"""
+    text, data = PERIODIC_SPECS[key]
+
+    def unit(U):
+        def body(it):
+            import copy as _copy
+            axis, rank = z3.Int("axis"), z3.Int("rank")
+            it.ctx.assume(z3.And(axis >= 0, axis < 2, rank >= 0, rank <= 2))
+            ax = 0 if it.ctx.branch(axis == 0) else 1
+            rank = 0 if it.ctx.branch(rank == 0) else (1 if it.ctx.branch(rank == 1) else 2)
+            periodic = [Opaque("periodic_other_axis"), Opaque("periodic_other_axis")]
+            periodic[ax] = grid_periodic
+            grid = Instance(None, {"periodic": periodic, "dim": 2, "num_axes": 2, "shape": (z3.Int("N0"), z3.Int("N1")), "__eq__": None}, name="grid")
+            handed_on = []
+
+            def from_data(interp, args, kw):
+                handed_on.append((args, kw))
+                return Instance(None, {"periodic": False, "handed_on": True}, name="BoundaryPair")
+
+            it.contracts[(AXIS, "BoundaryPair.from_data")] = from_data
+            fn = it.get_function(AXIS, "get_boundary_axis")
+            r = it.call(fn, [grid, ax, _copy.deepcopy(data)], {"rank": rank})
+            return r, grid, ax, rank, handed_on
+
+        want_flip = "anti" in key
+        is_auto = key.startswith("auto_periodic")
+        for p, res in enumerate(explore_paths(U, body)):
+            P = prem_of(res.ctx)
+            nm = f"path{p}"
+            if not grid_periodic and not is_auto:
+                U.prove(f"{nm}.periodic_condition_on_a_non-periodic_axis_is_rejected", P, z3.BoolVal(res.outcome == "raise" and res.exc.exc_type == "PeriodicityError"),
+                        info={"outcome": res.outcome, "exc": str(res.exc)})
+                continue
+            if res.outcome != "return":
+                U.prove(f"{nm}.returns_normally", P, z3.BoolVal(False), info={"exc": str(res.exc)})
+                continue
+            r, grid, ax, rank, handed_on = res.value
+            if not grid_periodic:
+                # auto_periodic_<x> on a non-periodic axis: the condition <x> is handed on to BoundaryPair.from_data
+                ok = len(handed_on) == 1 and isinstance(r, Instance) and r.attrs.get("handed_on") is True
+                passed = handed_on[0][0] if ok else ()
+                U.prove(f"{nm}.auto_periodic_on_a_non-periodic_axis_hands_on_the_named_condition", P,
+                        z3.BoolVal(ok and key[len("auto_periodic_"):] in [a for a in passed if isinstance(a, str)]), info={"passed": repr(passed)[:200]})
+                continue
+            ok = isinstance(r, Instance) and r.cls is not None and r.cls.name == "BoundaryPeriodic" and not handed_on
+            sides = [r.attrs.get("low"), r.attrs.get("high")] if ok else []
+            ok = ok and all(isinstance(s, Instance) and s.cls is not None and s.cls.name == "_PeriodicBC" for s in sides)
+            U.prove(f"{nm}.builds_a_pair_of_periodic_conditions", P, z3.BoolVal(ok))
+            if not ok:
+                continue
+            for s, upper in zip(sides, (False, True)):
+                side = "high" if upper else "low"
+                U.prove(f"{nm}.{side}.flip_sign=={want_flip}", P, to_z3(s.attrs.get("flip_sign")) == z3.BoolVal(want_flip) if "flip_sign" in s.attrs else z3.BoolVal(False),
+                        info={"replay_payload": {"periodic_spec": key}})
+                U.prove(f"{nm}.{side}.axis_side_rank_grid", P, z3.And(z3.BoolVal(s.attrs.get("grid") is grid and s.attrs.get("upper") is upper), to_z3(s.attrs.get("axis")) == ax,
+                                                                      to_z3(s.attrs.get("rank")) == rank))
+
+    return unit
+
+
+UNITS += [(f"get_boundary_axis[{PERIODIC_SPECS[k][0]},periodic_axis={gp}]", axis_spec_unit(k, gp)) for k in PERIODIC_SPECS for gp in (True, False)]
+
+
+# ------------------------------------------------------------------ the *current* parameters are imposed
+def value_update_unit(clsname, route):
+    """a condition object is used, its parameters are changed (bc.value = ..., a linked array modified in
+    place: the attribute holds the new number either way) and it is used again: the second application
+    imposes the condition with the new parameters (nothing computed at the first use may be reused)"""
+    kind = KINDS[clsname]
+
+    def unit(U):
+        def body(it):
+            grid, N, dx, facts = _grid(1)
+            for f in facts:
+                it.ctx.assume(f)
+            if kind == "curvature":
+                it.ctx.assume(N[0] >= 2)
+            upper = bool(it.ctx.branch(z3.Bool("upper")))
+            bc, par = _bc(it, clsname, grid, 0, upper)
+            new = {"value": z3.Real("new_value"), "const": z3.Real("new_const")}
+            if kind == "mixed":
+                it.ctx.assume(2 + dx[0] * to_z3(par["value"]) != 0)
+                it.ctx.assume(2 + dx[0] * new["value"] != 0)
+
+            def apply(data):
+                if route == "interpreted":
+                    it.call(it.getattr(bc, "set_ghost_cells"), [data], {})
+                else:
+                    be = Instance(it.load_module("pde.backends.numba.backend").get("NumbaBackend"), {})
+                    setter = it.call(it.getattr(be, "_make_local_ghost_cell_setter"), [bc], {})
+                    it.call(setter, [data], {})
+
+            first = sym_array("data_first", (N[0] + 2,))
+            apply(first)
+            bc.attrs["value"] = new["value"]
+            par2 = {"value": new["value"]}
+            if kind == "mixed":
+                bc.attrs["const"] = new["const"]
+                par2["const"] = new["const"]
+            data = sym_array("data_second", (N[0] + 2,))
+            before = data.buf.content
+            apply(data)
+            if route != "interpreted":
+                U.absorb(it)
+            return data, before, N, dx, par2, upper
+
+        for p, res in enumerate(explore_paths(U, body)):
+            P = prem_of(res.ctx)
+            nm = f"path{p}"
+            if res.outcome != "return":
+                U.prove(f"{nm}.returns_normally", P, z3.BoolVal(False), info={"exc": str(res.exc)})
+                continue
+            data, before, N, dx, par2, upper = res.value
+            gpos = N[0] + 1 if upper else 0
+            c1pos = N[0] if upper else 1
+            c2pos = N[0] - 1 if upper else 2
+            g = to_z3(data.read((gpos,)))
+            c1 = to_z3(before.read((c1pos,)))
+            c2 = to_z3(before.read((c2pos,)))
+            U.prove(f"{nm}.second_use_imposes_the_condition_with_the_current_parameters", P, condition(kind, g, c1, c2, dx[0], par2),
+                    info={"prefer": "ratnf", "replay_payload": {"value_update": clsname, "route": route}} if kind == "mixed" else {"replay_payload": {"value_update": clsname, "route": route}})
+
+    return unit
+
+
+UNITS += [(f"{c}.parameters_changed_between_two_uses[{r}]", value_update_unit(c, r)) for c in ("DirichletBC", "NeumannBC", "MixedBC", "CurvatureBC") for r in ("interpreted", "compiled")]
